@@ -9,6 +9,7 @@ import (
 	"encoding/json"
 	"errors"
 	"fmt"
+	"math"
 	"strconv"
 
 	internaljson "github.com/modelcontextprotocol/go-sdk/internal/json"
@@ -33,6 +34,12 @@ func MakeID(v any) (ID, error) {
 	case nil:
 		return ID{}, nil
 	case float64:
+		if v != math.Trunc(v) || v < -(1<<63) || v >= 1<<63 {
+			// Not an integer (2.7), or beyond int64: it is not the ID that
+			// truncating it would give. Keep the number as it is, so that it
+			// matches no integer ID and is echoed unchanged.
+			return ID{value: v}, nil
+		}
 		return Int64ID(int64(v)), nil
 	case string:
 		return StringID(v), nil
